@@ -58,6 +58,7 @@ def applyStep (c : Circuit) (ctr : Nat) (step : Json) : Except String (Except St
     | "extend" => pure (lift (c.extendCircuit other (← optStrs a[3]!) (← optStrs a[4]!) (← a[5]!.getBool?) name addP))
     | "add" => pure (lift (c.addCircuit other name addP))
     | _ => throw s!"unknown wrapper {which}"
+  | "into_circuit" => pure (lift (c.blockIntoCircuit (← a[1]!.getStr?)))
   | "replace_subcircuit" => do
     let sub ← parseCircuit a[1]!
     pure (c.replaceSubcircuit sub (← pairs a[2]!) (← pairs a[3]!) ctr)
